@@ -17,11 +17,14 @@ RULE = (
     "length <= 2 (thorough 3) over {0.0625, 0.5, 1.0, 3.0}, continued periodically, rotated per client) x weight/unit {(1,ops),(5,docs)} "
     "x error pattern {none, API error on 2nd, API error on 1st, unsuccessful result on 2nd, connection timeout on 2nd} x client-side "
     "overhead {0, (1/64, 1/32)} x wire requests per invocation {1,2}; 4 invocations per client, on-error=continue; for two-client "
-    "configurations every order of simultaneously due callbacks up to 1 deviation. non-trivial = throttled or erroneous or multi-client; "
+    "configurations every order of simultaneously due callbacks up to 1 deviation; completed-by family: an unthrottled completing task "
+    "(1..3 requests x 3 service times; completed-by task / any) next to a throttled sibling (1..2 clients x interval {0.5, 2} x service "
+    "{1/16, 1}) on the same worker, callback orders up to 1 deviation. non-trivial = throttled or erroneous or multi-client; "
     "distinct = configuration (+ schedule)"
 )
 ASSUMPTIONS = [
-    "scheduled time of an invocation = the tuple yielded by the real schedule generator (observed by wrapping ScheduleHandle.__call__)",
+    "scheduled time of an invocation = the tuple yielded by the real schedule generator (observed by wrapping ScheduleHandle.__call__), which "
+    "must itself equal k * clients * weight / target (weight counted only if the target is in the runner's unit)",
     "service time of an invocation = first wire request sent .. last response received at the simulated node; binary-fraction times, tolerance 1e-9",
 ]
 
@@ -119,6 +122,17 @@ def check(cfg, ch, res):
                 sched = ys[k][0]
                 issue = first["t_start"] - pre
                 want_proc = (last["t_end"] - issue) if aborted else (last["t_end"] + post - issue)
+                # independent reference of the scheduled time (deterministic pacing): k * clients * weight / target, weight counted only
+                # when the target is given in the runner's unit; not defined here when the very first invocation fails (no feedback yet)
+                want_sched = None
+                if thr is not None and err != "api-1st":
+                    if isinstance(thr, tuple):
+                        rate, tunit = 1.0 / thr[1], "ops/s"
+                    elif isinstance(thr, str):
+                        rate, tunit = float(thr.split()[0]), thr.split()[1]
+                    else:
+                        rate, tunit = float(thr), "ops/s"
+                    want_sched = k * (weight if f"{unit}/s" == tunit else 1) * clients / rate
                 ctx = f"client {cid} invocation {k} (scheduled {sched}, issued {issue}, wire {first['t_start']}..{last['t_end']})"
                 if s.task is not task or s.client_id != cid:
                     v = ("sample-identity", f"{ctx}: task/client {s.task}/{s.client_id}")
@@ -132,6 +146,8 @@ def check(cfg, ch, res):
                     v = ("issue-time", f"{ctx}: absolute_time {s.absolute_time - EPOCH}")
                 elif abs(s.request_start - first["t_start"]) > TOL:
                     v = ("request-start", f"{ctx}: request_start {s.request_start}")
+                elif want_sched is not None and abs(sched - want_sched) > TOL:
+                    v = ("scheduled-time", f"{ctx}: the schedule yielded {sched}, the target throughput puts invocation {k} at {want_sched}")
                 elif sched > 0:
                     if issue < sched - TOL:
                         v = ("issued-before-schedule", f"{ctx}")
@@ -171,6 +187,86 @@ def check(cfg, ch, res):
         )
 
 
+def cb_configs(tier):
+    """completed-by family: an unthrottled task A that completes its parent next to a throttled sibling B on the same worker"""
+    for a_iter in (1, 2, 3):
+        for a_svc in (0.0625, 0.5, 3.0):
+            for b_clients in (1, 2):
+                for b_interval in (0.5, 2.0):
+                    for b_svc in (0.0625, 1.0):
+                        for mode in ("task", "any"):
+                            if tier == "quick" and mode == "any" and (a_iter == 3 or b_clients == 2):
+                                continue
+                            yield ("cb", a_iter, a_svc, b_clients, b_interval, b_svc, mode)
+
+
+def check_cb(cfg, ch, res):
+    _, a_iter, a_svc, b_clients, b_interval, b_svc, mode = cfg
+    ta = loadgen.make_task("a", "a", clients=1, iterations=a_iter, completes_parent=mode == "task", any_completes_parent=mode == "any")
+    tb = loadgen.make_task("b", "b", clients=b_clients, iterations=40, any_completes_parent=mode == "any", params={"target-interval": b_interval / b_clients})
+    allocs = [(0, loadgen.allocation(ta, 0, 0, 1 + b_clients))] + [(1 + i, loadgen.allocation(tb, i, 1 + i, 1 + b_clients)) for i in range(b_clients)]
+
+    def behaviour(entry):
+        return {"service_time": a_svc if "/verif/a/" in entry["target"] else b_svc, "body": {"ok": True}}
+
+    r = loadgen.run_worker(allocs, behaviour, on_error="continue", chooser=ch)
+    v = None
+    a_end = None
+    if r.error is not None or r.loop_errors:
+        v = ("raises", f"{type(r.error).__name__ if r.error else ''}: {r.error} {r.loop_errors[:1]}")
+    else:
+        a_log = [e for e in r.log if "/verif/a/" in e["target"]]
+        a_end = max(e["t_end"] for e in a_log) if a_log else None
+        if len(a_log) != a_iter:
+            v = ("sample-count", f"the completing task issued {len(a_log)} of {a_iter} requests")
+        for cid in range(1, 1 + b_clients):
+            if v:
+                break
+            ss = [s for s in r.samples if s.client_id == cid]
+            lg = sorted((e for e in r.log if e["client_id"] == cid), key=lambda e: e["t_start"])
+            if len(ss) != len(lg):
+                v = ("sample-count", f"client {cid}: {len(ss)} samples for {len(lg)} requests")
+                break
+            for k, (s_, e) in enumerate(zip(ss, lg)):
+                want_sched = k * b_interval
+                svc = e["t_end"] - e["t_start"]
+                ctx = f"sibling client {cid} invocation {k} (scheduled {want_sched}, wire {e['t_start']}..{e['t_end']}, completing task ended at {a_end})"
+                if abs(s_.service_time - svc) > TOL:
+                    v = ("service-time", f"{ctx}: service_time {s_.service_time}, request took {svc}")
+                elif want_sched > 0 and e["t_start"] < want_sched - TOL:
+                    v = ("issued-before-schedule", ctx)
+                elif want_sched > 0 and abs(s_.latency - (e["t_end"] - want_sched)) > TOL:
+                    v = ("latency-throttled", f"{ctx}: latency {s_.latency}, response arrived {e['t_end'] - want_sched} after the scheduled time")
+                elif want_sched > 0 and s_.latency < s_.service_time - TOL:
+                    v = ("latency-below-service-time", f"{ctx}: latency {s_.latency} service {s_.service_time}")
+                elif want_sched == 0 and abs(s_.latency - s_.service_time) > TOL:
+                    v = ("latency-unthrottled", f"{ctx}: latency {s_.latency} != service_time {s_.service_time}")
+                if v:
+                    break
+    res.case(
+        case_repr={"family": "completed-by", "completing_task": {"iterations": a_iter, "service_time": a_svc}, "sibling": {"clients": b_clients,
+                   "interval": b_interval, "service_time": b_svc}, "mode": mode, "schedule": list(ch.choices), "completing_task_ended": a_end}
+        if res.sample_now(211)
+        else None,
+        nontrivial_key=(cfg, tuple(ch.choices)),
+        outcome_key=("cb", len(r.samples), v[0] if v else "ok"),
+    )
+    if v:
+        res.violation(
+            f"timing:{v[0]}:throttled:completed-by",
+            f"completed-by ({mode}) A: {a_iter} x {a_svc}s; sibling B: {b_clients} clients, one request every {b_interval}s per client, {b_svc}s each; schedule={list(ch.choices)}: {v[1]}",
+            {"cb": list(cfg), "choices": list(ch.choices)},
+        )
+
+
+def _job_cb(arg):
+    cfgs, bound = arg
+    res = Result()
+    for cfg in cfgs:
+        explore.explore_subtree(lambda ch, r, cfg=cfg: check_cb(cfg, ch, r), (), bound, res, max_exec=300)
+    return res
+
+
 def _job(arg):
     cfgs, bound = arg
     res = Result()
@@ -184,7 +280,10 @@ def run(tier, seed):
     cfgs = list(configs(tier))
     bound = 1 if tier == "quick" else 2
     res = par.pmap(_job, [(c, bound) for c in par.chunks(cfgs, par.NPROC * 8)], seed=seed)
+    cbs = list(cb_configs(tier))
+    res.merge(par.pmap(_job_cb, [(c, 1) for c in par.chunks(cbs, par.NPROC * 2)], seed=seed))
     res.extra["configurations"] = len(cfgs)
+    res.extra["completed_by_configurations"] = len(cbs)
     res.bound_completed = f"{bound} on two-client single-word configurations, 0 elsewhere" if res.exhaustive else "capped"
     res.states = res.evaluations
     return res
@@ -192,6 +291,9 @@ def run(tier, seed):
 
 def replay(data):
     res = Result()
+    if "cb" in data:
+        check_cb(tuple(data["cb"]), explore.Chooser(tuple(data["choices"])), res)
+        return [v for lst in res.violations.values() for v in lst]
     c = data["cfg"]
     cfg = (c[0], tuple(c[1]) if isinstance(c[1], list) else c[1], tuple(c[2]), tuple(c[3]), c[4], tuple(c[5]), c[6])
     check(cfg, explore.Chooser(tuple(data["choices"])), res)
